@@ -93,6 +93,22 @@ func c02(r *ev.Run) {
 		}
 		return totpGen(c, key)
 	})
+	r.Scenario("totp-generate-history", func(raw []byte) (string, string) {
+		emptySyncPools()
+		obs := ""
+		for k, c := range unjson[[]c02Case](raw) {
+			v, key := ref.B32Classify(c.Secret)
+			if v != ref.MustAccept {
+				return "", ""
+			}
+			o, bad := totpGen(c, key)
+			obs += o + ";"
+			if bad != "" {
+				return obs, fmt.Sprintf("call %d: %s", k, bad)
+			}
+		}
+		return obs, ""
+	})
 	if ReplayOnly {
 		return
 	}
@@ -183,6 +199,41 @@ func c02(r *ev.Run) {
 		}
 		r.Eval(local)
 	})
+	// call histories on one goroutine: the same secret and parameters at instants in DEscending and mixed order,
+	// and parameter changes between calls (a result must not depend on the call before it)
+	{
+		key := keys[0]
+		sec := spellings(key)[0]
+		instants := []int64{2000000000, 1234567890, 1111111111, 1111111109, 1111111081, 1111111079, 89, 60, 59, 30, 29, 0}
+		var hn int64
+		for _, per := range []uint64{30, 0, 60, 1} {
+			for _, d := range []int{6, 8} {
+				emptySyncPools()
+				var hist []c02Case
+				for pass := 0; pass < 2; pass++ {
+					for i := range instants {
+						t := instants[i]
+						if pass == 1 {
+							t = instants[(i*5)%len(instants)]
+						}
+						c := c02Case{sec, t, int64(i%2) * 999999999, i % 4, false, per, d, i % 3, (per == 30 || per == 0) && d == 6 && i%3 == 0 && pass == 1}
+						if c.Nil {
+							c.Algo = 0
+						}
+						hist = append(hist, c)
+						obs, bad := totpGen(c, key)
+						hn++
+						if bad != "" {
+							r.Fail("totp-generate-history", fmt.Sprintf("call %d of a history with period %d (instant %d after %d calls): %s", len(hist)-1, per, t, len(hist)-1, bad), hist, bad, obs)
+							break
+						}
+					}
+				}
+			}
+		}
+		r.Eval(hn)
+		r.Set("history_calls", hn)
+	}
 	// the default period: generation with period 0 equals generation with period 30 (follows
 	// from the reference; counted separately as a metamorphic pair)
 	if tcf1 := reflect.ValueOf(otp.TimeCounterFunc).Pointer(); tcf1 != tcf0 {
